@@ -95,6 +95,42 @@ Theorem c01_exception_print_total : forall n,
 Proof. exact exception_print_total. Qed.
 Print Assumptions c01_exception_print_total.
 
+(* ---- round 2: more of the reader under theorems *)
+(* the XSTATE feature iterator behind MinidumpMiscInfo::print: no shift by >= 64, no index >= 64,
+   at most 64 steps, at most 64 in-range indices — for every enabled_features mask *)
+Theorem c01_xstate_iter_total : forall p enabled,
+  (forall t, xstate_iter p enabled <> Pan t) /\ xstate_iter p enabled <> NoFuel /\
+  forall l, xstate_iter p enabled = Ok l -> Forall (fun i => 0 <= i < XSTATE_FEATURES) l /\ blen l <= XSTATE_FEATURES.
+Proof. exact xstate_iter_total. Qed.
+Print Assumptions c01_xstate_iter_total.
+
+Theorem c01_misc_info_total : forall p e b,
+  (forall t, misc_result p (read_misc_info e b) <> Pan t) /\ misc_result p (read_misc_info e b) <> NoFuel.
+Proof. exact misc_info_total. Qed.
+Print Assumptions c01_misc_info_total.
+
+(* printing the contexts of a thread list (any mix of CPU kinds) never panics *)
+Theorem c01_thread_contexts_print_total : forall ks,
+  (forall t, threads_print Fixed ks <> Pan t) /\ threads_print Fixed ks <> NoFuel.
+Proof. exact thread_contexts_print_total. Qed.
+Print Assumptions c01_thread_contexts_print_total.
+
+(* get_memory_at_address yields a value only from inside the region's bytes *)
+Theorem c01_memory_read_in_bounds : forall n e base region addr v, mem_read n e base region addr = Some v ->
+  base <= addr /\ (addr - base) + n <= blen region.
+Proof. exact mem_read_in_bounds. Qed.
+Print Assumptions c01_memory_read_in_bounds.
+
+(* key/value iteration over the Linux text streams: at most one pair per line, at most |stream|+1 lines,
+   trimming only ever shortens *)
+Theorem c01_linux_kv_bounded : forall sep b,
+  blen (linux_kv sep b) <= blen (linux_lines b) /\ blen (linux_lines b) <= blen b + 1.
+Proof. exact linux_kv_bounded. Qed.
+Print Assumptions c01_linux_kv_bounded.
+Theorem c01_strip_quotes_shorter : forall l, blen (strip_quotes l) <= blen l.
+Proof. exact strip_quotes_shorter. Qed.
+Print Assumptions c01_strip_quotes_shorter.
+
 (* ---- the code before the fix commits: each statement is false, with a concrete file
    (corpus/C01/cases.txt replays the same bytes on the real code) *)
 (* F-C01a (object-info type 0x7777), F-C01c (number_parameters = 16), F-C01e (PPC context printed) *)
@@ -123,11 +159,19 @@ Example c01_nonvacuous_hyp : wf_bytes nv_dump /\ blen nv_dump < T62.
 Proof. exact nv_dump_wf. Qed.
 Example c01_nonvacuous_run :
   o_fields (run_case Fixed Debug nv_dump) =
-    [(0, FOk [5]); (1, FOk [9]); (2, FOk [2]); (3, FOk [1]); (4, FErr EStreamNotFound); (5, FErr EStreamNotFound);
+    [(0, FOk [5]); (1, FOk [9]); (2, FOk [2; 0; 0]); (3, FOk [1]); (4, FErr EStreamNotFound); (5, FErr EStreamNotFound);
      (6, FErr EStreamNotFound); (7, FErr EStreamNotFound); (8, FErr EStreamNotFound); (9, FErr EStreamNotFound);
-     (10, FOk [1; 2]); (11, FOk [15; 0]); (12, FOk []); (13, FOk [])] /\
+     (10, FOk [1; 2]); (11, FOk [15; 0]); (12, FOk []); (13, FOk []); (14, FOk []); (15, FErr EStreamNotFound);
+     (16, FErr EStreamNotFound); (17, FErr EStreamNotFound); (18, FErr EStreamNotFound); (19, FErr EStreamNotFound);
+     (20, FErr EStreamNotFound); (21, FErr EStreamNotFound)] /\
   o_ledger (run_case Fixed Debug nv_dump) = [96; 256; 112; 248; 120].
 Proof. vm_compute. split; reflexivity. Qed.
+(* the xstate iterator on a mask with bits 0, 1, 39 and 63 set; quoted/padded key-value text *)
+Example c01_nonvacuous_xstate : xstate_iter Debug 9223372586610589699 = Ok [0; 1; 39; 63].
+Proof. vm_compute. reflexivity. Qed.
+Example c01_nonvacuous_kv :
+  linux_kv 61 [68; 61; 34; 88; 34; 10; 32; 97; 32; 61; 32; 98; 9; 10; 110; 111; 10] = [([68], [88]); ([97], [98])].
+Proof. vm_compute. reflexivity. Qed.
 Example c01_nonvacuous_fixed_witnesses :
   In (10, FOk [1; 0]) (o_fields (run_case Fixed Debug wit_a)) /\
   In (10, FOk [1; 9]) (o_fields (run_case Fixed Debug wit_b)) /\
